@@ -102,6 +102,10 @@ func (c *EvalCtx) typeByName(n string) types.Type {
 	if n == "ref" {
 		return types.NewPointer(types.NewStruct(nil, nil))
 	}
+	if n == "intmap" {
+		// ghost map from (string / reference) identities to integers
+		return types.NewArray(types.Typ[types.Int], 1<<40)
+	}
 	return nil
 }
 
@@ -469,7 +473,14 @@ func (c *EvalCtx) ident(name string) TV {
 			return c.fail("unknown ghost variable %s", name)
 		}
 		t := c.typeByName(g.Type)
-		return TV{V: x.ghostGet(c.cur, "$"+g.Name, x.sortOf(t)), T: t}
+		if t == nil {
+			return c.fail("type %s of ghost variable %s cannot be resolved here", g.Type, name)
+		}
+		gv := x.ghostGet(c.cur, "$"+g.Name, x.sortOf(t))
+		if gv.Sort.Kind != SArray {
+			x.axiom(x.typeInv(gv, t, nil))
+		}
+		return TV{V: gv, T: t}
 	}
 	if c.paramsFirst {
 		if v, ok := c.params[name]; ok {
@@ -842,7 +853,7 @@ func (c *EvalCtx) callExpr(e *Expr) TV {
 				return TV{V: x.idx(at.Len()), T: types.Typ[types.Int]}
 			}
 			if isString(v.T) {
-				n := tb.UF("str.len", x.intSort(), vv)
+				n := tb.UF("gstr.len", x.intSort(), vv)
 				x.axiom(x.le(x.idx(0), n))
 				return TV{V: n, T: types.Typ[types.Int]}
 			}
